@@ -289,14 +289,18 @@ def judge_j(agg, out, site, obs, Jref, info, tol, ctx):
 
 
 def check_mats(agg, out, info, L, Href, Jref, Kref, tol, ctx):
-    """calc_h_mat / calc_j_mat / calc_k_mat of the object L against the reference (H traceless)"""
+    """calc_h_mat / calc_j_mat / calc_k_mat of the object L against the reference (H traceless);
+    returns the three observed matrices (None where the call raised)"""
+    mats = []
     ok, h = A.call(L.calc_h_mat)
     out.ops += 1
+    mats.append(h if ok else None)
     if not ok:
         agg.fail("calc_h_mat:raises:%s" % excsig(h), "%s: %s" % (ctx, A.fmt_exc(h)))
     elif dist(h, Href) > tol:
         agg.fail("calc_h_mat:mismatch", "%s: |H - Href| = %.3g" % (ctx, dist(h, Href)))
     ok, j = A.call(L.calc_j_mat)
+    mats.append(j if ok else None)
     if not ok:
         out.ops += 1
         agg.fail("calc_j_mat:raises:%s" % excsig(j), "%s: %s" % (ctx, A.fmt_exc(j)))
@@ -304,6 +308,7 @@ def check_mats(agg, out, info, L, Href, Jref, Kref, tol, ctx):
         judge_j(agg, out, "calc_j_mat", j, Jref, info, tol, ctx)
     ok, k = A.call(L.calc_k_mat)
     out.ops += 1
+    mats.append(k if ok else None)
     if not ok:
         agg.fail("calc_k_mat:raises:%s" % excsig(k), "%s: %s" % (ctx, A.fmt_exc(k)))
     elif dist(k, Kref) > tol:
@@ -313,7 +318,7 @@ def check_mats(agg, out, info, L, Href, Jref, Kref, tol, ctx):
         out.count("seen_j_identity_component")
     if abs(c[1]) > 1e-6 * max(1e-3, np.abs(c).max()):
         out.count("seen_j_b1_component")
-    return (h if ok else None)
+    return mats
 
 
 # ------------------------------------------------------------------------------------ family: build
@@ -400,31 +405,31 @@ def ex_build(p, seed):
         s = SCALES[si]
         ctx = "%s %s[%d] x %g" % (p["sys"], kind, i, s)
         out.count("build_scale_%g" % s)
-        agg.element()
+        gen = None
         if kind == "h":
-            run_builder(agg, out, info, "h", s * HB[i], None, None, True, ctx)
+            gen, _ = run_builder(agg, out, info, "h", s * HB[i], None, None, True, ctx)
         elif kind == "k_herm":
             out.count("build_k_not_psd")
-            run_builder(agg, out, info, "k", None, None, s * KB[i], i == 0, ctx)   # KB[0] = I/sqrt(n) is PSD
+            gen, _ = run_builder(agg, out, info, "k", None, None, s * KB[i], i == 0, ctx)   # KB[0] = I/sqrt(n) is PSD
         elif kind == "k_psd":
-            run_builder(agg, out, info, "k", None, None, s * KP[i], True, ctx)
+            gen, _ = run_builder(agg, out, info, "k", None, None, s * KP[i], True, ctx)
         elif kind == "hk_h":
-            run_builder(agg, out, info, "hk", s * HB[i], None, gKp, True, ctx)
+            gen, _ = run_builder(agg, out, info, "hk", s * HB[i], None, gKp, True, ctx)
         elif kind == "hk_k":
-            run_builder(agg, out, info, "hk", gH, None, s * KP[i], True, ctx)
+            gen, _ = run_builder(agg, out, info, "hk", gH, None, s * KP[i], True, ctx)
         elif kind == "hjk_h":
-            run_builder(agg, out, info, "hjk", s * HB[i], gJ, gKh, False, ctx)
+            gen, _ = run_builder(agg, out, info, "hjk", s * HB[i], gJ, gKh, False, ctx)
         elif kind == "hjk_j":
-            run_builder(agg, out, info, "hjk", gH, s * HB[i], gKh, False, ctx)
+            gen, _ = run_builder(agg, out, info, "hjk", gH, s * HB[i], gKh, False, ctx)
         elif kind == "hjk_k":
-            run_builder(agg, out, info, "hjk", gH, gJ, s * KB[i], False, ctx)
+            gen, _ = run_builder(agg, out, info, "hjk", gH, gJ, s * KB[i], False, ctx)
         else:
             g = i
             H1, J1, K1 = s * gen_h(d, seed, 20 + g), s * gen_h(d, seed, 30 + g), s * gen_k(n, seed, 40 + g, False)
             H2, K2 = gen_h(d, seed, 50 + g), gen_k(n, seed, 60 + g, True)
             J2 = j_of_k(K2, info["Bs1"])
-            r1, _ = run_builder(agg, out, info, "hjk", H1, J1, K1, False, ctx + " (indefinite K, free J)")
-            r2, _ = run_builder(agg, out, info, "hjk", H2, J2, K2, True, ctx + " (PSD K, J from K)")
+            gen, _ = run_builder(agg, out, info, "hjk", H1, J1, K1, False, ctx + " (indefinite K, free J)")
+            run_builder(agg, out, info, "hjk", H2, J2, K2, True, ctx + " (PSD K, J from K)")
             run_builder(agg, out, info, "hk", H2, None, s * K2, True, ctx + " hk")
             run_builder(agg, out, info, "k", None, None, s * K1, False, ctx + " k")
             # additivity / homogeneity on the library side alone
@@ -439,6 +444,7 @@ def ex_build(p, seed):
                 agg.fail("generate_hs_from_hjk:not-additive", "%s: |f(x+y) - f(x) - f(y)| = %.3g" % (ctx, dist(hs12, a1 + a2)))
             else:
                 out.count("build_additivity_checked")
+        agg.element(gen)
     agg.flush()
     return out
 
@@ -629,7 +635,7 @@ def ex_extract(p, seed):
         agg.element(hs)
         L = EffectiveLindbladian(c, hs.copy(), is_physicality_required=False)
         out.traces += 1
-        check_mats(agg, out, info, L, H, J, K, tol, ctx)
+        mats = check_mats(agg, out, info, L, H, J, K, tol, ctx)
         Jd = jdef(J, info)
         for mode in MODES:
             rh, rj, rk = parts_ref(H, J, K, info, mode)
@@ -665,8 +671,7 @@ def ex_extract(p, seed):
                 if dist(got["h"] + got["d"], ssum) > tol:
                     agg.fail("parts-sum:%s:d-part-not-j-plus-k" % mode, "%s: %.3g" % (ctx, dist(got["h"] + got["d"], ssum)))
         # extract-then-build with the library's own matrices
-        oks, mats = zip(*[A.call(f) for f in (L.calc_h_mat, L.calc_j_mat, L.calc_k_mat)])
-        if all(oks):
+        if all(x is not None for x in mats):
             ok, hs2 = A.call(m.generate_hs_from_hjk, c, *mats)
             out.ops += 1
             if not ok:
@@ -745,7 +750,7 @@ def verdict_items(info, seed):
     return it
 
 
-def band(value, atol, upper=True):
+def band(value, atol):
     """True / False / None (inside the band where nothing is asserted); value = size of the violation (>= 0)"""
     if value <= atol / 10:
         return True
